@@ -96,7 +96,7 @@ unsigned int Interpolation::Hunt(double x)
 	{
 		jd = jLast;
 		ju = jd + dj;
-		while(x > x_values[ju])
+		while(ju < N - 1 && x >= x_values[ju])
 		{
 			jd = ju;
 			ju += dj;
